@@ -230,7 +230,7 @@ func cmdCheck(args []string) {
 		cfg2 := *cfg
 		cfg2.Jobs = 6
 		cfg2.TimeoutMS = 40000
-		cfg2.StageMS = 10000
+		cfg2.StageMS = 20000
 		cfg2.Seed = cfg.Seed + 3
 		SolveAll(retry, &cfg2)
 		phase("retry done")
@@ -238,14 +238,20 @@ func cmdCheck(args []string) {
 	}
 	if *updateGreen {
 		// only robustly discharged obligations are expected-green: not those that needed the
-		// retry pass or more than 4 s of the 10 s limit (they could time out under load and
+		// retry pass or more than half of the time limit (they could time out under load and
 		// would then be reported on an unchanged tree)
 		wasRetried := map[*Obligation]bool{}
 		for _, o := range retry {
 			wasRetried[o] = true
 		}
 		robust := func(o *Obligation) bool {
-			return o.Status == "discharged" && o.TimeMS < 4000 && !wasRetried[o]
+			// well under the limit that applied: 12 s for the weakening stages (20 s in the retry
+			// pass), 10 s for the race
+			lim := int64(4000)
+			if strings.Contains(o.Solver, "(qf") || strings.Contains(o.Solver, "(q-atoms") || strings.Contains(o.Solver, "(nl-") {
+				lim = 8000
+			}
+			return o.Status == "discharged" && o.TimeMS < lim && !wasRetried[o]
 		}
 		var names []string
 		for _, o := range res.Obls {
